@@ -210,15 +210,17 @@ static void scenario_writer(void)
     scenario_begin("writer");
     static uint8_t payload[300];
     for (size_t i = 0; i < sizeof payload; i++) payload[i] = (uint8_t) (0x30 + i * 7);
-    enum { NW = 16 };
+    enum { NW = 17 };
     for (int a = 0; a < NW; a++)
         for (int b = -1; b < NW; b++) {
             for (size_t cap = 0; cap <= 300; cap += (cap < 24 ? 1 : 37)) {
-                uint8_t *dst = (uint8_t *) vf_xmalloc(cap ? cap : 1);
-                memset(dst, 0xA5, cap ? cap : 1);
+                /* the writer's buffer is a sub-range of a larger arena: 8 bytes of headroom in front (sources may start there) */
+                uint8_t *arena = (uint8_t *) vf_xmalloc(cap + 8);
+                memset(arena, 0xA5, cap + 8);
+                uint8_t *dst = arena + 8;
                 binson_writer w;
                 memset(&w, 0x77, sizeof w);      /* a writer object holding arbitrary (but fixed) bytes before init */
-                binson_writer_init(&w, cap ? dst : dst + 1, cap);
+                binson_writer_init(&w, dst, cap);
                 int seq[2] = { a, b };
                 for (int i = 0; i < 2; i++) {
                     bool r = false;
@@ -243,6 +245,11 @@ static void scenario_writer(void)
                         r = binson_write_raw(&w, alias ? w.buffer + w.buffer_used - 2 : payload, 4);
                         break;
                     }
+                    case 16: {  /* 6 bytes starting 3 below the cursor - in front of the writer's buffer while fewer than 3 bytes are written */
+                        bool alias = w.error_flags == BINSON_ERROR_NONE && w.buffer_used + 3 <= cap;
+                        r = binson_write_raw(&w, alias ? w.buffer + w.buffer_used - 3 : payload, 6);
+                        break;
+                    }
                     case 15: {  /* a 40-byte string staged 3 bytes ahead of where it will land (in-place message building) */
                         bool alias = w.error_flags == BINSON_ERROR_NONE && w.buffer_used + 2 + 3 + 40 <= cap;
                         if (alias) memcpy(w.buffer + w.buffer_used + 5, payload, 40);
@@ -255,8 +262,8 @@ static void scenario_writer(void)
                     fold("w %d,%d cap%zu call%d ret=%d ctr=%zu err=%d", a, b, cap, i, r, binson_writer_get_counter(&w), (int) w.error_flags);
                 }
                 NSTATES++;
-                fold_bytes("dst", cap ? dst : dst + 1, cap);
-                free(dst);
+                fold_bytes("dst", arena, cap + 8);
+                free(arena);
             }
         }
     scenario_end("writer");
